@@ -15,8 +15,9 @@ use std::ops::Range;
 pub enum LexicalError {
     /// A closing brace '}' does not match an opening brace '{'.
     UnmatchedCloseBrace(usize),
-    /// Invalid escape sequence in a string literal.
-    InvalidEscapeSequence(usize),
+    /// Invalid escape sequence in a string literal. The range is the one of the escaped
+    /// character.
+    InvalidEscapeSequence(Range<usize>),
     /// Invalid escape ASCII code in a string literal.
     InvalidAsciiEscapeCode(usize),
     /// A multiline string was closed with a delimiter which has a `%` count higher than the
@@ -260,8 +261,8 @@ impl ParseError {
             LexicalError::UnmatchedCloseBrace(location) => {
                 ParseError::UnmatchedCloseBrace(mk_span(file_id, location, location + 1))
             }
-            LexicalError::InvalidEscapeSequence(location) => {
-                ParseError::InvalidEscapeSequence(mk_span(file_id, location, location + 1))
+            LexicalError::InvalidEscapeSequence(range) => {
+                ParseError::InvalidEscapeSequence(mk_span(file_id, range.start, range.end))
             }
             LexicalError::InvalidAsciiEscapeCode(location) => {
                 ParseError::InvalidAsciiEscapeCode(mk_span(file_id, location, location + 2))
